@@ -6,8 +6,9 @@ import (
 
 // A path is a sequence of blocks from entry to an exit, with the branch facts taken.
 type cfgPath struct {
-	Blocks []*ssa.BasicBlock
-	Facts  []fact
+	Blocks   []*ssa.BasicBlock
+	Facts    []fact
+	Diverges bool // the last block ends in a panic or a call that never returns
 }
 
 func (pt cfgPath) rels() relSet {
@@ -72,7 +73,7 @@ func (p *Prog) enumPaths(f *ssa.Function, unroll, limit int) (paths []cfgPath, o
 			cur.Blocks = cur.Blocks[:len(cur.Blocks)-1]
 		}()
 		if len(b.Succs) == 0 || p.blockDiverges(b) {
-			cp := cfgPath{Blocks: append([]*ssa.BasicBlock{}, cur.Blocks...), Facts: append([]fact{}, cur.Facts...)}
+			cp := cfgPath{Blocks: append([]*ssa.BasicBlock{}, cur.Blocks...), Facts: append([]fact{}, cur.Facts...), Diverges: p.blockDiverges(b)}
 			paths = append(paths, cp)
 			if len(paths) > limit {
 				ok = false
@@ -98,7 +99,7 @@ func (p *Prog) enumPaths(f *ssa.Function, unroll, limit int) (paths []cfgPath, o
 
 // endsInReturn reports whether the path ends in a normal return.
 func (pt cfgPath) endsInReturn() (*ssa.Return, bool) {
-	if len(pt.Blocks) == 0 {
+	if len(pt.Blocks) == 0 || pt.Diverges {
 		return nil, false
 	}
 	b := pt.Blocks[len(pt.Blocks)-1]
